@@ -94,6 +94,11 @@ def value_mutants(doc):
                                 yield "child-replaced:%s %s" % (key, where), m
             elif d[0] == "map":
                 keys = sorted(f[key])
+                if not keys and (key + ":type") in f:
+                    # an empty sparse container still says what its bins would hold
+                    m = copy.deepcopy(doc)
+                    grammar.set_path(m, path + [key + ":type"], "Sum" if f[key + ":type"] != "Sum" else "Count")
+                    yield "empty-content-type:%s %s" % (key, where), m
                 if keys:
                     k0 = keys[0]
                     m = copy.deepcopy(doc)
